@@ -387,6 +387,13 @@ def fixed() -> list:
     G.append([Rl(A("a", Group(A("g", Gather(comma, n), Opt(one)), A("h", plus)), k), A("b", Group(A("g", Gather(plus, n), Opt(one)), A("h", plus))))])
     G.append([Rl(A("a", Group(A("g", Gather(comma, n), Opt(one))), k)), Rl(A("b", Group(A("g", Gather(plus, n), Opt(one)))))])   # twins in two rules
     G[-1][0]["alts"].append(A("c", R(2)))
+    # rules whose alternatives are single items without actions (the xonsh generator compiles them to seq_alts)
+    G.append([Rl(A(D, Plus(n)), A(D, one))])
+    G.append([Rl(A(D, Plus(n)), A(D, Gather(comma, one)), A(D, plus))])
+    G.append([Rl(A(D, R(2)), A(D, one)), Rl(A(D, Plus(n)), A(D, k))])
+    G.append([Rl(A("a", Group(A(D, Plus(n)), A(D, one)), plus))])
+    G.append([Rl(A(D, Star(n)), A(D, one))])           # an alternative that succeeds with an empty result is still a success
+    G.append([Rl(A(D, Opt(n)), A(D, one))])
     # a keyword that occurs only as a separator / only under a lookahead / only forced / only inside a group is still a keyword
     G.append([Rl(A("a", Gather(k, n), plus), A("b", n, one))])
     G.append([Rl(A("a", Not(k), n, plus), A("b", n, comma))])
